@@ -1,7 +1,7 @@
 #!/venv/bin/python
 """Behaviour-preserving refactorings: the checks must stay quiet.
 
-  refcheck.py adopt <src_dir> <name>     copy patch.diff / equiv.py / notes.md into /verif/seeded/refactorings/<name>/
+  refcheck.py adopt <src_dir> <name> [n] copy patch[n].diff / equiv.py or demo[n].py / notes[n].md into /verif/seeded/refactorings/<name>/
   refcheck.py run <name> [prop ...]      scratch worktree + patch; equiv.py transcript on clean vs patched; every (or the given) quick
                                          check against the patched tree; results in meta.json
 A refactoring that really preserves behaviour must give exit 0 everywhere; an exit 1 is either a behavioural change the author
@@ -24,14 +24,17 @@ def sh(cmd, **kw):
     return subprocess.run(cmd, shell=True, stdout=subprocess.PIPE, stderr=subprocess.STDOUT, text=True, **kw)
 
 
-def adopt(src, name):
+def adopt(src, name, n=""):
+    """n = "": a refactoring (patch.diff, equiv.py, notes.md); n = "1"/"2": a property-preserving behaviour change
+    (patch<n>.diff, demo<n>.py, notes<n>.md; no equivalence script - behaviour differs on purpose)"""
     dst = os.path.join(BASE, name)
     os.makedirs(dst, exist_ok=True)
-    for f in ("patch.diff", "equiv.py", "notes.md"):
-        if os.path.exists(os.path.join(src, f)):
-            shutil.copy(os.path.join(src, f), os.path.join(dst, f))
-    json.dump({"name": name, "origin": "independent sub-agent asked for a behaviour-preserving refactoring", "results": {}},
-              open(os.path.join(dst, "meta.json"), "w"), indent=1)
+    for f, g in ((f"patch{n}.diff", "patch.diff"), ("equiv.py", "equiv.py"), (f"demo{n}.py", "demo.py"), (f"notes{n}.md", "notes.md")):
+        if os.path.exists(os.path.join(src, f)) and (n or not f.startswith("demo")):
+            shutil.copy(os.path.join(src, f), os.path.join(dst, g))
+    origin = ("independent sub-agent asked for a behaviour-preserving refactoring" if not n else
+              "independent sub-agent asked for a change of observable behaviour that keeps every listed property true")
+    json.dump({"name": name, "origin": origin, "results": {}}, open(os.path.join(dst, "meta.json"), "w"), indent=1)
 
 
 def run(name, props):
@@ -47,7 +50,8 @@ def run(name, props):
         ap = sh(f"git -C {d} apply {os.path.join(dst, 'patch.diff')}")
         assert ap.returncode == 0, "patch does not apply: " + ap.stdout
         patched = subprocess.run([PY, eq], cwd=d, env=env, stdout=subprocess.PIPE, stderr=subprocess.STDOUT, text=True, timeout=900).stdout if os.path.exists(eq) else ""
-        meta["equiv_transcripts_equal"] = clean == patched
+        if os.path.exists(eq):
+            meta["equiv_transcripts_equal"] = clean == patched
         meta["lines_changed"] = sh(f"git -C {d} diff --shortstat").stdout.strip()
         for p in props or PROPS:
             evd = tempfile.mkdtemp(prefix="rfev-", dir="/tmp")
@@ -67,6 +71,6 @@ def run(name, props):
 
 if __name__ == "__main__":
     if sys.argv[1] == "adopt":
-        adopt(sys.argv[2], sys.argv[3])
+        adopt(sys.argv[2], sys.argv[3], sys.argv[4] if len(sys.argv) > 4 else "")
     else:
         run(sys.argv[2], sys.argv[3:])
